@@ -11,7 +11,7 @@
 (* "M_conf" (is the step one the implementation-shaped model allows?) is   *)
 (* diagnostic only and is reported as a NOTE by the checker.               *)
 (***************************************************************************)
-EXTENDS Integers, Sequences, FiniteSets, TLC, Json, IOUtils, SyncImpl
+EXTENDS Integers, Sequences, FiniteSets, TLC, Json, IOUtils, SyncImpl, SyncHttp
 
 Recs == ndJsonDeserialize(IOEnv.TRACE)
 N    == Len(Recs)
@@ -30,7 +30,9 @@ vars == <<l, obs, kids, extra, g, issued, pex, cfg, nviol>>
 
 SetOf(s)   == {s[i] : i \in DOMAIN s}
 CsOf(j)    == [exists |-> j.e, latest |-> j.l, versions |-> SetOf(j.v), snap |-> j.s]
-StOf(e)    == [c \in DOMAIN e.st |-> CsOf(e.st[c])]
+StOfSt(st) == [c \in DOMAIN st |-> CsOf(st[c])]
+StOf(e)    == StOfSt(e.st)
+HasF(e, f) == f \in DOMAIN e
 KidsOf(e)  == [c \in DOMAIN e.st |-> SetOf(e.st[c].k)]
 ExtraOf(e) == [c \in DOMAIN e.st |-> e.st[c].x + e.st[c].nerr]
 
@@ -64,7 +66,9 @@ Judge(e) ==
       resp == e.resp
       c    == req.c
       cl   == DOMAIN e.st
-      isc  == req.op \in ClientOps /\ c \in cl
+      \* a request refused by the allow-list is no protocol operation: it must change nothing (C18/C16)
+      unl  == HasF(e, "allow") /\ e.allow.on /\ c \notin {e.allow.ids[i] : i \in DOMAIN e.allow.ids}
+      isc  == req.op \in ClientOps /\ c \in cl /\ ~(unl /\ req.op # "NewClient")
   IN
   \* the observed post-state and the ghost are bound to primed variables FIRST, so that TLC
   \* evaluates them once; the predicates below read obs/obs' and g/g'
@@ -102,6 +106,16 @@ Judge(e) ==
         <<"C12", /\ isc => C12_Step(cfg, pre[c], req, resp, e.day)
                  /\ \A d \in cl : C12_Counter(g2[d], post[d]) >>,
         <<"C18", IF isc THEN C18_Step(g[c], pre, post, req, resp) ELSE post = pre >>,
+        <<"C14", (HasF(e, "twin") /\ HasF(e, "http")) =>
+                    C14_Step(req.op, e.twin.resp, StOfSt(e.twin.st), resp, post, e.http) >>,
+        <<"C15", HasF(e, "hg") =>
+                    ( HasF(e, "http") /\ C15_Step(e.hg, e.http, resp, pre, post) ) >>,
+        <<"C16", (HasF(e, "allow") /\ HasF(e, "http")) =>
+                    C16_Step(e.allow, IF HasF(e, "hg") THEN e.hg.c ELSE req.c,
+                             IF HasF(e, "hg") THEN e.hg.cid ELSE "valid",
+                             IF HasF(e, "hg") THEN IsProto(e.hg.route) ELSE TRUE,
+                             IF HasF(e, "hg") THEN e.hg.cls = "yes" ELSE TRUE, e.http, e.ntxn, pre, post) >>,
+        <<"C20", HasF(e, "http") => C20_Step(e.http) >>,
         <<"M_conf", (isc /\ req.op # "Walk") =>
                        LET ms == ModelStep(pre, req, e.day, resp.vid) IN
                        ( KindClass(ms.resp.kind) = KindClass(resp.kind)
